@@ -341,6 +341,7 @@ def list_decl(c, K):
     ctor = lambda v, nxt: "N%d(%s, %s%s)" % (
         K, v, nxt, "".join(", " + e.replace("v", "(" + v + ")") for _, _, e in extras))
     val = "c.v"
+    cells = 4 + sum({"int": 1, "string": 1, "P": 5}[t] for _, t, _ in extras)
     for n, t, _ in extras:
         if t == "int":
             val += " + c.w % 7"
@@ -348,7 +349,7 @@ def list_decl(c, K):
             val += " + length(c.s)"
         else:
             val += " + c.p.y % 3"
-    return ctor, val
+    return ctor, val, cells
 
 
 def f2_list(c):
@@ -356,7 +357,8 @@ def f2_list(c):
     K = c.uid()
     c.need("mix", "idi")
     b = Block(2)
-    ctor, val = list_decl(c, K)
+    ctor, val, cells = list_decl(c, K)
+    c.allow -= 350
     c.funcs.append(T("""func cons${K}(v : int, n : N${K}) -> N${K}
 {
     var r = $ctor;
@@ -402,7 +404,7 @@ def f2_list(c):
     };
     o
 }""", K=K))
-    ln = r.randint(3, 9)
+    ln = r.randint(3, max(3, min(9, 40 // cells)))
     b.setup.append("var ls%d = N%d" % (K, K))
     b.setup.append("ls%d = build%d(%d, %d)" % (K, K, ln, r.randint(1, 9)))
     b.setup.append("var i%d = 0" % K)
@@ -431,11 +433,11 @@ def f2_reclist(c):
     K = c.uid()
     c.need("mix", "idi")
     b = Block(2, 7)
-    ctor, val = list_decl(c, K)
+    ctor, val, cells = list_decl(c, K)
     c.funcs.append(T("""func rb${K}(n : int, m : int) -> N${K}
 {
     if (n == 0) { N${K} } else { $ctor }
-}""", K=K, ctor=ctor("n * m % 23", "rb%d(n - 1, m)" % K)))
+}""", K=K, ctor=ctor("n * m % 23", "rb%d(idi(n) - 1, m)" % K)))
     val_h = val.replace("c.", "h.")
     c.funcs.append(T("""func rs${K}(h : N${K}) -> int
 {
@@ -542,6 +544,7 @@ def f2_tree(c):
     K = c.uid()
     c.need("mix")
     b = Block(2, 7)
+    c.allow -= 400
     c.decls.append("record T%d { v : int; l : T%d; r : T%d; }" % (K, K, K))
     c.funcs.append(T("""func ins${K}(var t : T${K}, v : int) -> T${K}
 {
@@ -681,7 +684,7 @@ def f2_global(c):
 }""", K=K, m=r.randint(1, 9)))
     b.setup.append("gpush%d(%d)" % (K, r.randint(1, 9)))
     b.setup.append("var i%d = 0" % K)
-    n = c.n(4, 20, 75)
+    n = c.n(4, 20, 60)
     b.use.append(T("""for (i${K} = 0; i${K} < $n; i${K} = i${K} + 1)
     {
         acc = mix(acc, gwork${K}(i${K}))
@@ -727,7 +730,7 @@ def f2_enum(c):
     b.setup.append("var i%d = 0" % K)
     b.setup.append("for (i%d = 0; i%d < %d; i%d = i%d + 1) { shs%d[i%d] = mks%d(i%d + %d) }"
                    % (K, K, ln, K, K, K, K, K, K, r.randint(0, 3)))
-    n = c.n(4, 24, 30)
+    n = c.n(4, 24, 22)
     b.use.append(T("""for (i${K} = 0; i${K} < $n; i${K} = i${K} + 1)
     {
         shs${K}[i${K} % $ln] = mks${K}(i${K} * $m + area${K}(shs${K}[(i${K} + 1) % $ln]));
@@ -1502,32 +1505,30 @@ FAMILIES = {
 
 
 def interleave(rng, blocks):
-    """random merge of the blocks' setup+use lists keeping each block's own order, with all of a
-    block's setup before its use; tends to put other blocks' work between setup and use"""
-    queues = []
-    for b in blocks:
-        queues.append(list(b.setup))
+    """random merge of the blocks' statements: a block's setup precedes its use, each block keeps
+    its own order, the `late` statements of all blocks come at the very end.  Mostly all setups
+    come first (so that every block's long-lived data is live while the others work); sometimes
+    the merge is completely free."""
     out = []
-    # phase 1: setups of all blocks in random order (interleaved statement-wise)
-    # phase 2: uses, interleaved block-wise so that a block's loop runs while others' data is live
-    pend_setup = [q for q in queues if q]
-    while pend_setup:
-        q = rng.choice(pend_setup)
-        out.append(q.pop(0))
-        if not q:
-            pend_setup.remove(q)
-        # now and then start using an already completed block early
-    uses = [list(b.use) for b in blocks if b.use]
-    rng.shuffle(uses)
-    while uses:
-        q = rng.choice(uses)
-        # take a run of 1..3 statements from one block
-        for _ in range(rng.randint(1, 3)):
+    if rng.random() < 0.7:
+        pend = [list(b.setup) for b in blocks if b.setup]
+        while pend:
+            q = rng.choice(pend)
+            out.append(q.pop(0))
+            if not q:
+                pend.remove(q)
+        queues = [list(b.use) for b in blocks if b.use]
+    else:
+        queues = [list(b.setup) + list(b.use) for b in blocks if b.setup or b.use]
+    rng.shuffle(queues)
+    while queues:
+        q = rng.choice(queues)
+        for _ in range(rng.randint(1, 3)):     # a run of 1..3 statements of one block
             if q:
                 out.append(q.pop(0))
         if not q:
-            uses.remove(q)
-    lates = [s for b in blocks for s in b.late]
+            queues.remove(q)
+    lates = [st for b in blocks for st in b.late]
     rng.shuffle(lates)
     return out + lates
 
@@ -1570,16 +1571,16 @@ func main() -> int
 def gen_one(seed, index):
     h = int(hashlib.sha256(("%d:%d" % (seed, index)).encode()).hexdigest()[:16], 16)
     rng = random.Random(h)
-    budget = rng.choice([900, 1300, 1800, 2400, 3000])   # safe points, roughly
+    budget = rng.choice([800, 1200, 1600, 2100, 2600])   # safe points, roughly
     c = Ctx(rng, budget)
     c.need("mix")
     nfam = rng.randint(3, 6)
     fams = rng.sample(sorted(FAMILIES), nfam)
     wrap = rng.random() < 0.5
-    # 200 slots by default; keep the programs within about 160: 34 are in use when main starts,
+    # 200 slots by default; keep the programs within about 170: 34 are in use when main starts,
     # main holds about 5 locals per block, the optional body() frame, and the non-recursive
     # frames/temporaries between main and a recursion
-    c.stack_avail = 160 - 34 - 5 * nfam - (9 if wrap else 0) - 26
+    c.stack_avail = 176 - 34 - 5 * nfam - (9 if wrap else 0) - 26
     blocks = []
     for f in fams:
         c.allow = budget / nfam
@@ -1587,7 +1588,7 @@ def gen_one(seed, index):
     covered = set()
     for b in blocks:
         covered |= b.fams
-    unhandled = rng.random() < 0.03
+    unhandled = rng.random() < 0.02
     text = assemble(rng, c, blocks, wrap, unhandled)
     pid = "gen-s%d-%d-f%s%s" % (seed, index, "".join(str(f) for f in sorted(covered)),
                                 "u" if unhandled else "")
